@@ -925,7 +925,10 @@ def _snapper_table_complete(M, init, rid, file) -> List[R.Inst]:
             ok_ = guard is not None and isinstance(guard.test, ast.Compare) and isinstance(guard.test.ops[0], ast.In) and \
                 unparse(guard.test.left) == unparse(b.targets[0]) and \
                 any(isinstance(x, ast.Call) and call_name(x) == "add" and unparse(x.args[0]) == unparse(b.targets[0]) for o in guard.orelse for x in ast.walk(o))
-            if not ok_:
+            if not ok_ and guard is not None and isinstance(guard.test, ast.BoolOp) and isinstance(guard.test.op, ast.Or) and any(
+                    isinstance(x, ast.Compare) and isinstance(x.ops[0], ast.In) and unparse(x.left) == unparse(b.targets[0]) for x in guard.test.values):
+                bad.append((b, f"'{unparse(guard.test)[:70]}' blanks a cell also when its value has NOT been seen before"))
+            elif not ok_:
                 und.append(b)
             continue
         if isinstance(sl, ast.Call) and call_name(sl) == "triu_indices" and len(sl.args) == 2 and unparse(sl.args[1]) == "1":
